@@ -35,7 +35,8 @@ SENT = ['<zq7 x="1">&zq;\'"', "a<b", "x&y", '"q"', "it's", "<script>alert(1)</sc
 PLAIN_KEYS = ["a", "b", "c", "name", "items", "opts", "x1", "A", "long_key_name"]
 # long sibling keys that differ only in the middle (anything that abbreviates long texts merges them)
 LONG_KEYS = ["configuration_" + m + "_for_the_solver_settings" for m in ("alpha", "bravo", "gamma")] + \
-            ["k" * 40 + "1" + "z" * 40, "k" * 40 + "2" + "z" * 40]
+            ["k" * 40 + "1" + "z" * 40, "k" * 40 + "2" + "z" * 40] + \
+            ["q" * n + "<&>" + "r" * 30 for n in (58, 60, 61, 62, 63, 64, 126, 254)] + ["w" * 300 + "1", "w" * 300 + "2"]
 DOCS = [None, None, {"description": ["plain text"], "examples": []},
         {"description": ["uses `code` and <b>bold</b> & more"], "examples": ["`x = 1`", "a < b"]},
         {"description": ["unbalanced ` tick", "two `a` and `b`"], "examples": ['say "hi"', "it's"]},
@@ -44,7 +45,7 @@ DOCS = [None, None, {"description": ["plain text"], "examples": []},
         {"description": ["see `https://example.org/spec` for details", "http://a.b/c?x=1&y=2 and `http://x.y`."],
          "examples": ["`https://e.org/`", "https://e.org/<b>", "www.x.org `ftp://h/p`"]},
         {"description": ["**bold** _emph_ [text](http://u.v/w) # heading", "mail me@x.org &amp; &lt;tag&gt; &#60;"],
-         "examples": ["1 < 2 > 0", "`a`b`c`", "```fenced```", "\\`escaped\\`", "line one\nline two", "tab\there"]}]
+         "examples": ["&lt;zq9&gt; entity text", "&#60;zq8&#62;", "&nbsp;zq7", "AT&amp;T zq6", "1 < 2 > 0", "`a`b`c`", "```fenced```", "\\`escaped\\`", "line one\nline two", "tab\there"]}]
 TYPES = ["int", "float", "str", "list", "dict", "bool"]
 
 
@@ -464,6 +465,10 @@ def run(case, ctx):
                     # the raw form may only occur if it coincides with text the writer produced itself
                     ctx.violate("C20/html:unescaped", f"schema-supplied text {s!r} appears unescaped in the HTML")
                     break
+            # character references are complete (an ampersand always starts a whole, known reference)
+            bad_amp = re.search(r"&(?!(?:amp|lt|gt|quot|apos|#x27|#39|#[0-9]+|#x[0-9a-fA-F]+);)", out)
+            if bad_amp:
+                ctx.violate("C20/html:bare-ampersand", f"an ampersand that does not start a complete character reference: ...{out[max(0, bad_amp.start() - 30):bad_amp.start() + 20]!r}")
             # back-tick pairs become balanced <code>
             if out.count("<code>") != out.count("</code>"):
                 ctx.violate("C20/html:unbalanced", "<code> tags unbalanced")
